@@ -149,6 +149,7 @@ pub open spec fn only_real_svg_changed(pre: TransformerContext, post: Transforme
 //@ - spec_real_svg(input.events@) ==> r is Ok && r->Ok_0.0 == into_output(input) && r->Ok_0.1 is None     @@C03.events.identity @@C05.events.identity
 //@ - spec_real_svg(input.events@) ==> only_real_svg_changed(*old(context), *final(context))     @@C03.events.frame
 //@ - spec_real_svg(input.events@) && old(context).element_stack@.len() == 0 ==> final(context).real_svg     @@C03.events.mark
+//@ - spec_real_svg(input.events@) && old(context).element_stack@.len() > 0 ==> final(context).real_svg == old(context).real_svg     @@C02.root.nested_real_svg_keeps_root @@C05.root.nested_real_svg_keeps_root
 //@end
 
 // ------------------------------------------------------------------------------ postprocess
